@@ -62,6 +62,9 @@ pub struct WorldSpec {
     pub engine_lines: Vec<String>,
     /// how often the whole query is executed on this one thread (C18)
     pub repeat: usize,
+    /// a session (src/main.rs execute(): running.store(true) before every statement): the interrupt flag is armed
+    /// again before the second and later executions, which share the `Tables` with the first
+    pub rearm_between_repeats: bool,
     pub event_budget: usize,
     /// simulated duration of one EOF poll (0 = a spinning follower on a fast machine; seconds = a slow or
     /// descheduled one, or equivalently a writer that pauses)
@@ -109,6 +112,7 @@ impl WorldSpec {
             print_result: true,
             engine_lines: Vec::new(),
             repeat: 1,
+            rearm_between_repeats: false,
             event_budget: 20_000,
             poll_cost_ns: 0,
             pipe_inputs: false,
@@ -336,7 +340,10 @@ fn drive(spec: &WorldSpec, running: Arc<AtomicBool>) -> DriverOut {
         }
     };
 
-    for _ in 0..spec.repeat.max(1) {
+    for round in 0..spec.repeat.max(1) {
+        if round > 0 && spec.rearm_between_repeats {
+            running.store(true, std::sync::atomic::Ordering::SeqCst);
+        }
         match &spec.mode {
             Mode::Batch => {
                 let mut files = Vec::new();
